@@ -101,6 +101,9 @@ class C12:
         if u < 0.24:
             return _plan_shared_step(rc, st)
         if u < 0.36:
+            if u >= 0.335 and any(e in only for e in ("fjsp", "jssp")):
+                # L2D (shared encoder output expanded in the decoder's pre-hook) on the scheduling environments
+                return _plan_am(rc, st, rc.choice([e for e in ("fjsp", "jssp") if e in only]), "l2d")
             pool = [e for e in AM_ENVS if e in only] or AM_ENVS
             return _plan_am(rc, st, pool[rc.randrange(len(pool))])
         # OP is the one environment whose first-move feasibility depends on the instance: triple weight
@@ -680,7 +683,7 @@ def _plan_shared_step(rc, st):
         raise HarnessError("could not draw instances with distinct fingerprints")
     model = rc.choice(["pomo", "symnco"])
     return {"scenario": "shared_step", "model": model, "cfg": cfg, "instances": [E.enc_row(r) for r in rows],
-            "phase": rc.choice(["train", "train", "val", "test"]), "n_aug": rc.choice([1, 2, 2, 3, 4]),
+            "phase": rc.choice(["train", "train", "val", "test"]), "n_aug": rc.choice([0, 1, 2, 2, 3, 4] if model == "pomo" else [1, 2, 2, 3, 4]),
             "n_start": rc.choice([2, 3, 4, 5]), "augment_fn": rc.choice(["symmetric", "dihedral8"]),
             "seed": rc.randrange(1 << 30)}
 
@@ -910,9 +913,9 @@ def _exec_shared_step(run):
 # --------------------------------------------------------------------------------------------------
 # real AttentionModel: batched replicated rollout == solo replicated rollout
 # --------------------------------------------------------------------------------------------------
-def _plan_am(rc, st, name):
+def _plan_am(rc, st, name, kind="am"):
     n = rc.randint(4, 7)
-    cfg = P.env_cfg_for("am", name, n, rc)
+    cfg = P.env_cfg_for(kind, name, n, rc)
     if name == "op":
         cfg["gen"]["max_length"] = 3.0
     env = E.make_env(cfg)
@@ -922,7 +925,9 @@ def _plan_am(rc, st, name):
     gns = int(env.get_num_starts(td0))
     mode = rc.choice(["multistart_greedy", "multistart_greedy", "multisample_greedy"])
     k = rc.randint(2, max(2, min(gns, 4)))
-    return {"scenario": "am", "cfg": cfg, "instances": [E.enc_row(r) for r in rows], "mode": mode, "k": k,
+    if kind != "am":  # the scheduling environments define no start-node rule: replicas by num_samples only
+        mode, k = "multisample_greedy", rc.randint(2, 4)
+    return {"scenario": "am", "kind": kind, "cfg": cfg, "instances": [E.enc_row(r) for r in rows], "mode": mode, "k": k,
             "policy_seed": rc.randrange(1 << 20), "select_best": rc.random() < 0.4}
 
 
@@ -930,13 +935,16 @@ def _exec_am(run):
     plan = run.plan
     cfg = plan["cfg"]
     name = cfg["env"]
-    scope = "am:" + name
+    kind = plan.get("kind", "am")
+    scope = kind + ":" + name
     rows = [E.dec_row(r) for r in plan["instances"]]
     B, k, mode = len(rows), plan["k"], plan["mode"]
     with run.guard(scope, "construct env"):
         env = E.make_env(cfg)
     with run.guard(scope, "construct policy"):
-        pol = P.make_policy("am", name, plan["policy_seed"]).eval()
+        pol = P.make_policy(kind, name, plan["policy_seed"]).eval()
+    if kind != "am":
+        run.probe("replicas_" + kind)
     with run.guard(scope, "env.reset"):
         td = E.reset(env, cfg, rows)
     masks = td["action_mask"].clone()
